@@ -1,6 +1,6 @@
 """Target table for tools/translate.py: which functions of /repo/src/aspire are translated, what their
 free names stand for, and which generated file each definition goes to."""
-from translate import (N, Abs, NoneV, Obj, Opaque, S, Untranslatable, V, emit_defs, var, RTABLE, XTABLE, HEADER, XHEADER)
+from translate import (N, Abs, NoneV, Obj, Opaque, S, Tup, Untranslatable, V, emit_defs, emit_calls, var, RTABLE, XTABLE, HEADER, XHEADER)
 import json
 import traceback
 
@@ -70,6 +70,132 @@ def kernels_targets():
     return T
 
 
+CALLS_HEADER = XHEADER + """
+Section Calls.
+  Context {X Z : Type}.
+  (* the user's log-likelihood and log-prior, the proposal's log-density, and the preconditioning
+     transform's inverse (point and log|det dx/dz|) — arbitrary *)
+  Variables (L Pi Q : X -> XR).
+  Variables (Tinv_pt : Z -> X) (Tinv_lj : Z -> XR).
+"""
+
+
+def calls_targets():
+    def sampler_self():
+        return {"_log_likelihood": Abs("L"), "log_prior": Abs("Pi"), "dtype": Opaque("dtype"), "parameters": Opaque("parameters"),
+                "n_likelihood_evaluations": S("nle0"), "dims": Opaque("dims"), "sampler_kwargs": Opaque("kw"),
+                "history": Opaque("history"), "rng": Opaque("rng"), "emcee_moves": Opaque("moves")}
+    inv = {"self.preconditioning_transform.inverse": Abs("Tinv", shape="pair"), "self.prior_flow.log_prob": Abs("Q")}
+    T = []
+    T.append(dict(name="smc_log_prob", module="samplers.smc.base", cls="SMCSampler", func="log_prob",
+                  inputs=[("z", "ZV"), ("beta", "S"), ("nle0", "S")], self=sampler_self(),
+                  params={"z": var("z", "ZV"), "beta": S("beta")}, overrides=dict(inv),
+                  outputs={"value": "return", "count": "self.n_likelihood_evaluations"}, calls=True))
+    T.append(dict(name="mcmc_log_prob", module="samplers.mcmc", cls="MCMCSampler", func="log_prob",
+                  inputs=[("z", "ZV"), ("nle0", "S")], self=sampler_self(),
+                  params={"z": var("z", "ZV")}, overrides=dict(inv),
+                  outputs={"value": "return", "count": "self.n_likelihood_evaluations"}, calls=True))
+    mut_over = dict(inv)
+    mut_over.update({"partial": Opaque("partial"), "Sampler": Opaque("kernel"), "self.fit_preconditioning_transform": Opaque("fit"),
+                     "sampler.sample": Tup([Opaque("chain"), Opaque("hist")]), "chain[-1]": var("znew", "ZV"),
+                     "self.history.mcmc_acceptance.append": Opaque("append")})
+    particles = lambda: Obj("SMCSamples", {"x": var("px", "XV"), "log_likelihood": V("pll"), "log_prior": V("plp"),
+                                            "log_q": V("plq"), "beta": S("pbeta")})
+    outs = {"x": "return.x", "log_q": "return.log_q", "log_prior": "return.log_prior",
+            "log_likelihood": "return.log_likelihood", "beta": "return.beta", "count": "self.n_likelihood_evaluations"}
+    T.append(dict(name="minipcn_mutate", module="samplers.smc.minipcn", cls="MiniPCNSMC", func="mutate",
+                  inputs=[("znew", "ZV"), ("beta", "S"), ("nle0", "S")], self=sampler_self(),
+                  params={"particles": particles(), "beta": S("beta"), "n_steps": NoneV()}, overrides=mut_over,
+                  outputs=outs, calls=True))
+    em_over = dict(inv)
+    em_over.update({"emcee.EnsembleSampler": Opaque("kernel"), "self.fit_preconditioning_transform": Opaque("fit"),
+                    "copy.deepcopy": Opaque("kwargs"), "sampler.run_mcmc": Opaque("run"),
+                    "self.history.mcmc_acceptance.append": Opaque("append"), "self.history.mcmc_autocorr.append": Opaque("append"),
+                    "sampler.get_chain(flat=False)[-1, ...]": var("znew", "ZV")})
+    T.append(dict(name="emcee_mutate", module="samplers.smc.emcee", cls="EmceeSMC", func="mutate",
+                  inputs=[("znew", "ZV"), ("beta", "S"), ("nle0", "S")], self=sampler_self(),
+                  params={"particles": particles(), "beta": S("beta"), "n_steps": NoneV()}, overrides=em_over,
+                  outputs=outs, calls=True))
+    T.append(dict(name="importance_sample", module="samplers.importance", cls="ImportanceSampler", func="sample",
+                  inputs=[("x", "XV"), ("lq", "V"), ("nle0", "S")], self=sampler_self(),
+                  params={"n_samples": Opaque("n")},
+                  overrides={"self.prior_flow.sample_and_log_prob": Tup([var("x", "XV"), V("lq")])},
+                  outputs={"x": "return.x", "log_q": "return.log_q", "log_prior": "return.log_prior",
+                           "log_likelihood": "return.log_likelihood", "log_w": "return.log_w",
+                           "count": "self.n_likelihood_evaluations"}, calls=True))
+    T.append(dict(name="convert_to_samples", module="aspire", cls="Aspire", func="convert_to_samples",
+                  inputs=[("x", "XV"), ("lq", "V")],
+                  self={"log_likelihood": Abs("L"), "log_prior": Abs("Pi"), "parameters": Opaque("p"), "dtype": Opaque("d")},
+                  params={"x": var("x", "XV"), "log_likelihood": NoneV(), "log_prior": NoneV(), "log_q": V("lq"),
+                          "evaluate": True, "xp": Opaque("xp")},
+                  outputs={"log_prior": "return.log_prior", "log_likelihood": "return.log_likelihood", "log_w": "return.log_w"},
+                  calls=True))
+    return T
+
+
+def run_calls(tr, targets, status, irall, meta):
+    chunks = []
+    for spec in targets:
+        name = spec["name"]
+        try:
+            ex, outs = tr.translate(spec)
+            text, ir = emit_defs(name, spec["inputs"], ex, outs, XTABLE, section_types=True)
+            text += "\n" + emit_calls(name, spec["inputs"], ex, XTABLE)
+            chunks.append(f"(* ---- {spec['module']}.{spec.get('cls')}.{spec['func']}"
+                          f"{'  guards(raise if): ' + '; '.join(ex.guards) if ex.guards else ''} *)\n" + text)
+            irall.update(ir)
+            meta[name] = {"guards": ex.guards, "n_events": len(ex.events)}
+            status[name] = (True, "")
+        except Untranslatable as e:
+            status[name] = (False, f"Untranslatable: {e}")
+        except Exception:
+            status[name] = (False, traceback.format_exc()[-1500:])
+    return "\n".join(chunks)
+
+
+ROWS_HEADER = """(* GENERATED on every run by /verif/tools/translate.py from /repo/src/aspire/samples.py (working tree). Do not edit. *)
+From Coq Require Import Reals List Bool.
+From AV Require Import Lib.Vec Lib.Soa Gen.Kernels.
+Import ListNotations.
+Open Scope R_scope.
+"""
+
+
+def rows_targets():
+    I = var("idx", "I")
+    full = lambda: {"x": var("x", "XV"), "log_likelihood": V("ll"), "log_prior": V("lp"), "log_q": V("lq"),
+                    "parameters": Opaque("p"), "dtype": Opaque("d"), "device": NoneV()}
+    base_in = [("x", "XV"), ("ll", "V"), ("lp", "V"), ("lq", "V"), ("idx", "I"), ("dX", "X")]
+    fields = {"x": "return.x", "log_likelihood": "return.log_likelihood", "log_prior": "return.log_prior", "log_q": "return.log_q"}
+    T = []
+    smc = full()
+    smc.update({"beta": S("beta0"), "log_evidence": NoneV(), "log_evidence_error": NoneV()})
+    T.append(dict(name="resample_rows", module="samples", cls="SMCSamples", func="resample",
+                  inputs=[("x", "XV"), ("ll", "V"), ("lp", "V"), ("lq", "V"), ("beta0", "S"), ("beta", "S"), ("idx", "I"), ("dX", "X")],
+                  self=smc, params={"beta": S("beta"), "n_samples": NoneV(), "rng": Opaque("rng")},
+                  overrides={"rng.choice": I},
+                  flags={"assume": {"beta == self.beta and n_samples is None": False}},
+                  outputs=dict(fields, beta="return.beta")))
+    T.append(dict(name="base_getitem", module="samples", cls="BaseSamples", func="__getitem__", inputs=base_in,
+                  self=full(), params={"idx": I}, outputs=dict(fields)))
+    smc2 = full()
+    smc2.update({"beta": S("beta0"), "log_evidence": S("le"), "log_evidence_error": S("lee")})
+    T.append(dict(name="smc_getitem", module="samples", cls="SMCSamples", func="__getitem__",
+                  inputs=[("x", "XV"), ("ll", "V"), ("lp", "V"), ("lq", "V"), ("beta0", "S"), ("le", "S"), ("lee", "S"), ("idx", "I"), ("dX", "X")],
+                  self=smc2, params={"idx": I},
+                  outputs=dict(fields, beta="return.beta", log_evidence="return.log_evidence", log_evidence_error="return.log_evidence_error")))
+    w = full()
+    w.update({"log_w": V("lw"), "weights": V("w"), "log_evidence": S("le"), "log_evidence_error": S("lee"),
+              "evidence": S("ev"), "evidence_error": S("eve"), "effective_sample_size": S("ess")})
+    T.append(dict(name="samples_getitem", module="samples", cls="Samples", func="__getitem__",
+                  inputs=[("x", "XV"), ("ll", "V"), ("lp", "V"), ("lq", "V"), ("lw", "V"), ("w", "V"), ("le", "S"), ("lee", "S"),
+                          ("idx", "I"), ("dX", "X")],
+                  self=w, params={"idx": I},
+                  outputs=dict(fields, log_w="return.log_w", weights="return.weights", log_evidence="return.log_evidence",
+                               log_evidence_error="return.log_evidence_error", ess="return.effective_sample_size")))
+    return T
+
+
 def run_targets(tr, targets, table, status, irall, meta):
     chunks = []
     for spec in targets:
@@ -99,4 +225,12 @@ def build(tr, status):
     body = run_targets(tr, kernels_targets(), RTABLE, status, irall, meta)
     files["Kernels.v"] = HEADER + "\n" + body
     files["kernels_ir.json"] = json.dumps({"ir": irall, "meta": meta}, indent=0, default=str)
+    ir3, meta3 = {}, {}
+    body3 = run_targets(tr, rows_targets(), RTABLE, status, ir3, meta3)
+    files["Rows.v"] = ROWS_HEADER + "\n" + body3
+    files["rows_ir.json"] = json.dumps({"ir": ir3, "meta": meta3}, indent=0, default=str)
+    ir2, meta2 = {}, {}
+    body2 = run_calls(tr, calls_targets(), status, ir2, meta2)
+    files["Calls.v"] = CALLS_HEADER + "\n" + body2 + "\nEnd Calls.\n"
+    files["calls_ir.json"] = json.dumps({"ir": ir2, "meta": meta2}, indent=0, default=str)
     return files
